@@ -3,6 +3,7 @@ package mux
 import (
 	"bytes"
 	"fmt"
+	"runtime"
 	"strconv"
 	"strings"
 	"time"
@@ -205,6 +206,7 @@ type E2Result struct {
 	Immediate  int
 	Rejected   int
 	DeltaSkips int // delta responses with SKIPPED-SEGMENTS > 0
+	Bursts     int
 	Classes    map[string]int
 	Excluded   int
 }
@@ -231,7 +233,7 @@ func (r *E2Result) Has(prop string) string {
 
 // RunC06 runs a Low-Latency script with tracked blocking requests.
 // exclude lists request classes of open known findings that must not be issued.
-func RunC06(sc Script, reqs []ReqSpec, tmpBase string, exclude func(class string) bool) *E2Result {
+func RunC06(sc Script, reqs []ReqSpec, bursts map[int]int, tmpBase string, exclude func(class string) bool) *E2Result {
 	res := &E2Result{Classes: map[string]int{}}
 	cfg := sc.Config
 	if cfg.Variant != VariantLL {
@@ -284,6 +286,7 @@ func RunC06(sc Script, reqs []ReqSpec, tmpBase string, exclude func(class string
 	}
 
 	// evaluate every pending request against the current state
+	relaxed := false // after a burst of writes: the state at which a waiter ran is one of several
 	evaluate := func(step int) bool {
 		var keep []*pendingReq
 		for _, pr := range pend {
@@ -392,7 +395,7 @@ func RunC06(sc Script, reqs []ReqSpec, tmpBase string, exclude func(class string
 						res.add("C06", "%s: response lists a URI with a _HLS_ directive:\n%s", where, body)
 						return false
 					}
-					if body != want {
+					if body != want && !relaxed {
 						res.add("C06", "%s: response is not the playlist of the state at which it was released\n--- response\n%s--- expected\n%s", where, body, want)
 						return false
 					}
@@ -433,10 +436,34 @@ func RunC06(sc Script, reqs []ReqSpec, tmpBase string, exclude func(class string
 	for _, r := range reqs {
 		byOp[r.AtOp] = append(byOp[r.AtOp], r)
 	}
+	burstEnd := -1
+	prevProcs := 0
+	defer func() {
+		if prevProcs > 0 {
+			runtime.GOMAXPROCS(prevProcs)
+		}
+	}()
 	for i, op := range sc.Ops {
+		if n, ok := bursts[i]; ok && burstEnd < 0 && n > 1 && len(states) == len(streams) {
+			// a burst: several writes back to back on a single P, so that woken requests do not
+			// get to run between the rotations
+			burstEnd = i + n - 1
+			prevProcs = runtime.GOMAXPROCS(1)
+			res.Bursts++
+		}
 		if err := drv.Write(i, op); err != nil {
 			res.Skip = "write failed: " + err.Error()
 			break
+		}
+		relaxed = false
+		if burstEnd >= 0 {
+			if i < burstEnd && i < len(sc.Ops)-1 {
+				continue
+			}
+			runtime.GOMAXPROCS(prevProcs)
+			prevProcs = 0
+			burstEnd = -1
+			relaxed = true
 		}
 		if !observe() {
 			return res
